@@ -256,7 +256,9 @@ impl<T> Signal<T> {
 
     /// Returns true if signal is terminated
     pub(crate) fn is_terminated(&self) -> bool {
-        self.state.load(Ordering::Relaxed) == TERMINATED
+        // Acquire: a caller that sees the termination returns and frees the signal, so everything the terminating
+        // side did with the signal (it reads the waker before it stores the state) has to happen before that
+        self.state.load(Ordering::Acquire) == TERMINATED
     }
 
     /// Reads kanal ptr and returns its value
